@@ -191,3 +191,12 @@ Definition rec_hexdigest (h : rec_hash) : ores bytes :=
 Definition rec_runtime : runtime fsw rec_hash :=
   mk_runtime fsw rec_hash fs_makedirs fs_isdir fs_unlink fs_open_rb fs_mkstemp fs_write fs_close
              rec_new rec_update rec_hexdigest.
+
+(* ---------- a scripted runtime for fault injection ----------
+   makedirs and unlink return the injected outcome whatever the arguments, isdir the given
+   flag; everything else fails.  (The harness does the same to the real code by replacing
+   os.makedirs / the remove callable.) *)
+Definition script_rt (inj : ores unit) (isd : bool) : runtime unit unit :=
+  mk_runtime unit unit (fun _ _ w => (w, inj)) (fun _ _ => isd) (fun _ w => (w, inj))
+    (fun _ _ => OErr errno_ENOENT) (fun _ _ _ w => (w, OErr errno_ENOENT)) (fun _ _ w => (w, OErr errno_EBADF))
+    (fun _ w => (w, OErr errno_EBADF)) (fun _ => OExn ValueError) (fun h _ => h) (fun _ => OExn ValueError).
